@@ -226,7 +226,29 @@ fn gen_frame(r: &mut Rng, depth: u32, tag: &mut u32) -> FrameSpec {
 }
 
 fn hostile_item(r: &mut Rng, thorough: bool) -> Vec<u8> {
-    match r.below(16) {
+    match r.below(18) {
+        16 | 17 => {
+            // a chain of 2-4 array / bulk headers whose counts are drawn from interesting numbers
+            // of both signs (counts that cancel each other, that overflow when added or
+            // multiplied, that are huge but allocatable), optionally followed by a scalar
+            const NUMS: [i64; 14] = [0, 1, 2, 3, 1 << 31, 1 << 40, 1 << 50, 1 << 55, 1 << 62, i64::MAX, 4_000_000_000_000, 100_000_000_000, 65_536, 1_125_899_906_842_624];
+            let n = r.range(2, 4);
+            let mut b = Vec::new();
+            let mut last: i64 = 1;
+            for j in 0..n {
+                let mut v = if j > 0 && r.one_in(2) { last } else { *r.pick(&NUMS) };
+                if r.one_in(2) {
+                    v = v.checked_neg().unwrap_or(v);
+                }
+                last = v.checked_neg().unwrap_or(v);
+                let kind = if j + 1 == n && r.one_in(3) { '$' } else { '*' };
+                b.extend_from_slice(format!("{}{}\r\n", kind, v).as_bytes());
+            }
+            if r.one_in(2) {
+                b.extend_from_slice(*r.pick(&[&b":1\r\n"[..], b"$1\r\nx\r\n", b"+a\r\n"]));
+            }
+            b
+        }
         0 => {
             let n = r.range(1, 200) as usize;
             let mut b = vec![0u8; n];
